@@ -168,8 +168,6 @@ theorem apeTagData_saved (audio : Bytes) (items : List Ape.Item) (hok : Ape.TagO
     rw [hlen, show (audio ++ H ++ body).length + 32 - 32 + 8 = (audio ++ H ++ body).length + 8 by omega, hsplit,
       readAt_append_right]
   rw [hd, f3, f5]
-  have c1 : ¬ (body.length + 32 < 32) := by omega
-  rw [if_neg c1]
   have hdata : (audio ++ (H ++ body ++ F)).length - (body.length + 32) = (audio ++ H).length + 0 := by
     rw [hlen, hP]; simp [lH]
   rw [hdata, show body.length + 32 - 32 = body.length by omega]
